@@ -322,6 +322,9 @@ func checkC13(c *core.Ctx) {
 			"a literal is parsed as a 64-bit integer and converted with T(x): a value outside the enum's base type is silently truncated instead of rejected")
 	}
 
+	// R3b: the range test above is only meaningful if the arithmetic happens in
+	// the enum's own integer type
+	flagDispatch(c, p, "R3")
 	// ---- R4
 	if f := p.FuncDecl(pkg, "readConst"); f != nil {
 		covered := map[string]bool{}
